@@ -144,7 +144,11 @@ def schedule_program(rng, plan, ops, sched):
         if sched == "S2":
             for o in ops:
                 if o.needs() <= set(w.units) and (
-                        o.idx not in early_done or d.kind == "derived"):
+                        o.idx not in early_done or d.kind == "derived" or
+                        # a unit derived from exactly these operands was
+                        # just declared (for whatever type)
+                        (d.kind == "derive" and
+                         o.needs() <= set(d.p["units"]))):
                     evaluate(o, "early")
                     early_done.add(o.idx)
     if sched == "S3":
@@ -184,6 +188,49 @@ def schedule_program(rng, plan, ops, sched):
             steps.extend(d.steps("x%d" % o.idx))
             added += 1
             evaluate(o, "after-direct-unit")
+        # ... and, for results in a type without reference unit, a SIBLING of
+        # the result unit: the same shape over another base unit (EUR/kg is
+        # there, now HKD/kg is declared); the operation must not move to it
+        sib = 0
+        for o in ops:
+            if o.op == "**" or sib >= 4:
+                continue
+            _, pred, _, _ = o.build(w)
+            if pred["kind"] != "qty-noref":
+                continue
+            t = w.types[pred["type"]]
+            if t.base or len(t.defn) != 2:
+                continue
+            u1, u2 = w.units[o.s1], w.units[o.s2]
+            (n1, e1), (n2, e2) = t.defn
+            if (u1.tname, u2.tname) == (n1, n2):
+                pair = [o.s1, o.s2]
+            elif (u2.tname, u1.tname) == (n1, n2):
+                pair = [o.s2, o.s1]
+            else:
+                continue
+            done_ = False
+            for pos in (0, 1):
+                bt = w.types[w.units[pair[pos]].tname]
+                if bt.has_ref:
+                    continue
+                alts = [x.sym for x in w.units_of(bt.name)
+                        if x.vec != w.units[pair[pos]].vec]
+                if not alts:
+                    continue
+                cand = list(pair)
+                cand[pos] = rng.choice(alts)
+                d = Decl("derive", t=t.name, sym="sib%d" % o.idx, units=cand)
+                try:
+                    d.apply(w)
+                except (Rejected, OutOfDomain, KeyError):
+                    continue
+                steps.extend(d.steps("y%d" % o.idx))
+                done_ = True
+                break
+            if done_:
+                sib += 1
+                evaluate(o, "after-sibling-unit")
         for o in ops:
             evaluate(o, "final2")
     return steps, evals, w
@@ -253,6 +300,35 @@ def world_group(chk, rng, wi, pending):
             o.k1, o.k2 = kk
             o.n = None
             ops.append(o)
+    # product and quotient of the very units a two-unit derived unit was
+    # derived from (whatever the exponents of its type are): declaring that
+    # unit must not change them
+    for d in plan:
+        if d.kind != "derive" or len(d.p["units"]) != 2:
+            continue
+        for op in "*/":
+            o = OpSpec(rng, w0, len(ops))
+            o.op, (o.s1, o.s2) = op, d.p["units"]
+            o.k1, o.k2 = rng.choice(["uu", "qq"])
+            o.n = None
+            ops.append(o)
+    # the defining product / quotient of every two-factor type WITHOUT
+    # reference unit, so that schedule S5 can declare sibling units for it
+    for t in w0.types.values():
+        if t.has_ref or len(t.defn) != 2:
+            continue
+        (n1, e1), (n2, e2) = t.defn
+        if e1 != 1 or abs(e2) != 1 or not w0.units_of(n1) or \
+                not w0.units_of(n2):
+            continue
+        for kk in ("qq", "uu"):
+            o = OpSpec(rng, w0, len(ops))
+            o.op = "*" if e2 == 1 else "/"
+            o.s1 = rng.choice([u.sym for u in w0.units_of(n1)])
+            o.s2 = rng.choice([u.sym for u in w0.units_of(n2)])
+            o.k1, o.k2 = kk
+            o.n = None
+            ops.append(o)
     nops = len(ops)
     group = dict(wi=wi, results={}, plan=[d.to_json() for d in plan],
                  nops=nops)
@@ -304,6 +380,16 @@ def world_group(chk, rng, wi, pending):
                             "a more direct unit was declared" %
                             (wi, desc, final[idx], sig), wit,
                             "history|direct-unit")
+                elif phase == "after-sibling-unit":
+                    chk.count("S5 re-evaluations after a sibling unit in a "
+                              "type without reference unit")
+                    if final.get(idx) and final[idx][0] != "E" and \
+                            final[idx] != sig:
+                        chk.violation(
+                            "world %d schedule S5: %s gives %s, but %s after "
+                            "a sibling unit (same shape, another base unit) "
+                            "was declared" % (wi, desc, final[idx], sig),
+                            wit, "history|sibling-unit")
                 elif phase == "final":
                     final[idx] = sig
                     defined_now = pred["kind"] in ("qty", "number", "scaled")
@@ -362,6 +448,13 @@ def signature(w, r):
         u = w.units.get(r["u"])
         if u is None:
             return ("Q", r["t"], "unit?" + r["u"])
+        t = w.types.get(u.tname)
+        if t is not None and not t.has_ref:
+            # no common scale in such a type: the value is the amount times
+            # the unit's scale IN its own base units (5 EUR/kg is not
+            # 5 HKD/kg)
+            return ("Q", r["t"], str(val(r) * u.factor),
+                    str(sorted(u.vec.items())))
         return ("Q", r["t"], str(val(r) * u.factor))
     if r.get("k") == "N":
         return ("N", str(val(r)) if r.get("a") else r.get("hex"))
@@ -370,6 +463,10 @@ def signature(w, r):
         if len(items) == 2 and items[1].get("k") == "U":
             u = w.units.get(items[1]["sym"])
             if u is not None and items[0].get("a"):
+                t = w.types.get(u.tname)
+                if t is not None and not t.has_ref:
+                    return ("UU", u.tname, str(val(items[0]) * u.factor),
+                            str(sorted(u.vec.items())))
                 return ("UU", u.tname, str(val(items[0]) * u.factor))
         if len(items) == 2 and items[1].get("k") == "None" and \
                 items[0].get("a"):
@@ -437,6 +534,8 @@ def run(chk, R, tier, seed):
               "existed", "operations re-evaluated in the same process",
               "permuted declaration orders",
               "S5 re-evaluations after a more direct unit",
+              "S5 re-evaluations after a sibling unit in a type without "
+              "reference unit",
               "cross-process comparisons", "schedules|S1", "schedules|S2",
               "schedules|S3", "schedules|S4", "schedules|S5"):
         chk.require(c)
